@@ -36,13 +36,23 @@ def main() -> int:
     # 1. translator / generated files, build, lint, assumptions ---------------
     try:
         from . import gen_all
+        needed = gen_all.gen_deps(mod.PROP_FILE)
         for name, msg in gen_all.regenerate(strict=False):
             ctx.notes.append(f"translator {name} did not regenerate its file: {msg}")
+            if gen_all.gen_file_of(name) in needed:
+                # the theorems of this property would be checked against a STALE generated file: the tie is broken
+                proof_ok = False
+                proof_msgs.append(f"translator {name} aborted and Gen/{gen_all.gen_file_of(name)}.v, on which {mod.PROP_FILE} depends, "
+                                  f"no longer reflects the source: {msg}")
+                print(f"TIE BROKEN: translator {name} aborted ({msg})")
         if hasattr(mod, "pre_build"):
             mod.pre_build(ctx)
     except core.TranslatorAbort as e:  # source no longer in the handled subset: broken tie
         proof_ok = False
         proof_msgs.append(f"translator: {e}")
+    except Exception as e:  # noqa: BLE001 - e.g. a source file that no longer parses: the tie is broken as well
+        proof_ok = False
+        proof_msgs.append(f"translator stage raised {type(e).__name__}: {e}")
     thorough = args.tier == "thorough"
     ok, out = core.build_targets([mod.PROP_FILE], clean=False)
     if not ok:
@@ -175,7 +185,7 @@ def main() -> int:
         "input_distribution": ctx.dist,
         "open_goals": list(getattr(mod, "OPEN_GOALS", [])),
         "known_findings_reported": known_lines,
-        "notes": ctx.notes + proof_msgs,
+        "notes": [_repo_note()] + ctx.notes + proof_msgs,
         "print_assumptions": assum_raw.strip().splitlines()[-40:],
     }
     if coqchk_out is not None:
@@ -204,6 +214,18 @@ def main() -> int:
           f"evaluations={ctx.evaluations} distinct_nontrivial={len(ctx.distinct)} "
           f"violations={len(violations)} wall={ev['wall_s']}s")
     return 1 if violations else 0
+
+
+def _repo_note() -> str:
+    """which tree this run looked at (evidence written while a seeded change is evaluated must be recognisable as such)"""
+    import subprocess
+    repo = str(core.REPO)
+    try:
+        head = subprocess.run(["git", "-C", repo, "rev-parse", "--short", "HEAD"], capture_output=True, text=True, timeout=20).stdout.strip()
+        dirty = subprocess.run(["git", "-C", repo, "status", "--porcelain", "--untracked-files=no"], capture_output=True, text=True, timeout=20).stdout.strip()
+        return f"repository checked: {repo} at {head or '?'}" + (" with uncommitted changes to tracked files" if dirty else ", working tree clean")
+    except Exception as e:  # noqa: BLE001
+        return f"repository checked: {repo} (git state not read: {e})"
 
 
 def oracle_only(ctx: Ctx, b: core.Batch) -> None:
